@@ -18,6 +18,7 @@ mod socket;
 mod isa;
 mod m_bus;
 mod m_cost;
+mod m_elf;
 mod m_step;
 mod util;
 
@@ -36,6 +37,7 @@ fn mode_for(name: &str) -> Option<Box<dyn Mode>> {
     match name {
         "cost" => Some(Box::new(m_cost::CostMode::new())),
         "step" => Some(Box::new(m_step::StepMode::new())),
+        "elf" => Some(Box::new(m_elf::ElfMode::new())),
         "bus09" => Some(Box::new(m_bus::BusMode::new(9))),
         "bus16" => Some(Box::new(m_bus::BusMode::new(16))),
         "bus17" => Some(Box::new(m_bus::BusMode::new(17))),
